@@ -28,7 +28,7 @@ SCAN = ["pedal/sandbox/*.py", "pedal/utilities/exceptions.py"]
 GENERIC = [16, 64]          # always visited, whatever the tree says ("deep/long/many" variants)
 MAX_DEPTH = 260             # call-chain depth (CPython's own recursion limit is 1000; the sandbox adds frames)
 MAX_COUNT = 420             # lines / items / characters
-BIG_DEPTHS = [300, 500]
+BIG_DEPTHS = [300, 500, 800]
 BIG_LENGTHS = [1000, 4097, 8193, 65537, 100001]
 BIG_LINES = [1000, 1025, 5000]
 
@@ -453,12 +453,12 @@ def limit_cases(rng, tier, consts=None):
     # buffer or a cut-off would plausibly use; recursion stays at half of CPython's default limit)
     for name, fn, sizes in [("deep-ok", t_deep_ok, BIG_DEPTHS), ("recursive-sum", t_recursive_sum, BIG_DEPTHS),
                             ("call-depth", t_call_depth, BIG_DEPTHS)]:
-        for n in (sizes if tier != "quick" else [rng.choice(sizes)]):
+        for n in (sizes if tier != "quick" or name == "deep-ok" else [rng.choice(sizes)]):
             code, calls = fn(n)
             cases.append(mk(code, calls, [], "limit:depth:%s:%d(big)" % (name, n), rng))
     for name, fn, sizes in [("long-line", c_long_line, BIG_LENGTHS), ("many-lines", c_many_lines, BIG_LINES),
                             ("error-at-line", c_error_at_line, BIG_LINES), ("many-inputs", c_many_inputs, BIG_LINES[:2])]:
-        for n in (sizes if tier != "quick" else [rng.choice(sizes)]):
+        for n in (sizes if tier != "quick" or name == "long-line" else [rng.choice(sizes)]):
             code, calls, inputs = fn(n)
             cases.append(mk(code, calls, inputs, "limit:count:%s:%d(big)" % (name, n), rng))
     for name, fn in COUNT_TEMPLATES:
